@@ -310,7 +310,7 @@ func locBaseTerm(l *Loc) *Term {
 	case locCell:
 		return Int(int64(-l.Cell.id))
 	case locElem:
-		return Add(Mul(l.Base, Int(1<<20)), l.Idx)
+		return Add(Mul(l.Base, Int(1<<20)), absIdx(l))
 	}
 	return l.Base
 }
@@ -332,7 +332,7 @@ func (ex *Exec) doIndexAddr(fr *Frame, st *State, x *ssa.IndexAddr) Val {
 	case *types.Slice:
 		arr, off, ln := ex.sliceParts(base)
 		ex.boundsCheck(st, idx, ln, x.Pos())
-		loc := &Loc{Kind: locElem, Base: arr, Idx: Add(off, idx), Obj: u.Elem(), T: u.Elem()}
+		loc := &Loc{Kind: locElem, Base: arr, Off: off, Idx: idx, Obj: u.Elem(), T: u.Elem()}
 		return Val{T: x.Type(), L: []*Term{UF("interior", SInt, arr, Add(off, idx))}, Loc: loc}
 	case *types.Pointer:
 		at := types.Unalias(u.Elem()).Underlying().(*types.Array)
